@@ -65,22 +65,51 @@ Proof. induction u; cbn [uint_bytes forallb]; auto. Qed.
 Lemma dec_of_Z_nospace z : forallb (fun c => negb (is_space c)) (dec_of_Z z) = true.
 Proof. unfold dec_of_Z. destruct (Z.to_int z); cbn [forallb]; rewrite uint_bytes_nospace; reflexivity. Qed.
 
+(* ---- the blanks int() / float() skip ---- *)
+Lemma space_num_space c : is_space_num c = true -> is_space c = true.
+Proof. destruct c; cbn; congruence. Qed.
+Lemma lstrip_num_spaces a x : all_space_num a = true -> lstrip_num (a ++ x) = lstrip_num x.
+Proof.
+  induction a as [|c a IH]; cbn; [reflexivity|]. intros H. apply andb_prop in H. destruct H as [H1 H2].
+  rewrite H1. apply IH. exact H2.
+Qed.
+Lemma all_space_num_rev a : all_space_num (rev a) = all_space_num a.
+Proof.
+  unfold all_space_num. induction a as [|c a IH]; cbn; [reflexivity|]. rewrite forallb_app, IH. cbn. rewrite andb_true_r. apply andb_comm.
+Qed.
+Definition nonsp (s : str) : bool := forallb (fun c => negb (is_space_num c)) s.
+Lemma lstrip_num_nonsp s t : nonsp s = true -> s <> [] -> lstrip_num (s ++ t) = s ++ t.
+Proof. destruct s as [|c r]; [congruence|]. cbn. intros H _. apply andb_prop in H. destruct H as [H _]. destruct (is_space_num c); [discriminate|reflexivity]. Qed.
+Lemma nonsp_rev s : nonsp (rev s) = nonsp s.
+Proof. unfold nonsp. induction s as [|c a IH]; cbn; [reflexivity|]. rewrite forallb_app, IH. cbn. rewrite andb_true_r. apply andb_comm. Qed.
+(* blanks around a blank-free, non-empty text are stripped *)
+Lemma strip_num_pad a l b : all_space_num a = true -> all_space_num b = true -> nonsp l = true -> l <> [] ->
+  strip_num (a ++ l ++ b) = l.
+Proof.
+  intros A B N NE. unfold strip_num. rewrite lstrip_num_spaces by exact A. rewrite lstrip_num_nonsp by assumption.
+  rewrite rev_app_distr. rewrite lstrip_num_spaces by (rewrite all_space_num_rev; exact B).
+  rewrite <- (app_nil_r (rev l)). rewrite lstrip_num_nonsp; [rewrite app_nil_r; apply rev_involutive|rewrite nonsp_rev; exact N|].
+  intros E. apply (f_equal (@rev byte)) in E. rewrite rev_involutive in E. cbn in E. congruence.
+Qed.
+Lemma strip_num_nonsp l : nonsp l = true -> strip_num l = l.
+Proof.
+  intros N. destruct l as [|c r] eqn:E; [reflexivity|]. rewrite <- E in *.
+  rewrite <- (app_nil_r l) at 1. change (l ++ []) with ([] ++ l ++ []). apply strip_num_pad; try reflexivity; [exact N|congruence].
+Qed.
+Lemma nospace_nonsp s : forallb (fun c => negb (is_space c)) s = true -> nonsp s = true.
+Proof.
+  intros F. unfold nonsp. apply forallb_forall. intros c I. rewrite forallb_forall in F. specialize (F c I).
+  destruct (is_space_num c) eqn:E; [|reflexivity]. apply space_num_space in E. rewrite E in F. discriminate.
+Qed.
+
 (* int(str(z)) = z, and hence the typed conversion of a coordinate column *)
 Lemma py_int_dec z : py_int (dec_of_Z z) = Some z.
-Proof. unfold py_int. rewrite strip_nospace by apply dec_of_Z_nospace. apply Z_of_dec_dec_of_Z. Qed.
+Proof. unfold py_int. rewrite strip_num_nonsp by (apply nospace_nonsp, dec_of_Z_nospace). apply Z_of_dec_dec_of_Z. Qed.
 Lemma conv_int_dec z : conv TInt (dec_of_Z z) = AInt z.
 Proof. unfold conv. rewrite py_int_dec. reflexivity. Qed.
 (* blanks around the number are accepted, as by int() *)
-Lemma py_int_padded a b z : all_space a = true -> all_space b = true -> py_int (a ++ dec_of_Z z ++ b) = Some z.
+Lemma py_int_padded a b z : all_space_num a = true -> all_space_num b = true -> py_int (a ++ dec_of_Z z ++ b) = Some z.
 Proof.
-  intros A B. unfold py_int. rewrite strip_pad; [apply Z_of_dec_dec_of_Z|exact A|exact B|].
-  pose proof (dec_of_Z_nospace z) as F. pose proof (strip_nospace _ F) as S.
-  destruct (dec_of_Z z) as [|c r] eqn:E.
-  - exfalso. pose proof (Z_of_dec_dec_of_Z z) as X. rewrite E in X. discriminate.
-  - unfold edge_ok. apply andb_true_intro. split; [cbn in F; apply andb_prop in F; tauto|].
-    assert (G : forallb (fun c => negb (is_space c)) (rev (c :: r)) = true).
-    { apply forallb_forall. intros x Hx. apply in_rev in Hx. rewrite forallb_forall in F. exact (F x Hx). }
-    destruct (rev (c :: r)) as [|y q] eqn:E2.
-    + apply (f_equal (@length byte)) in E2. rewrite rev_length in E2. discriminate.
-    + cbn in G. apply andb_prop in G. tauto.
+  intros A B. unfold py_int. rewrite strip_num_pad; [apply Z_of_dec_dec_of_Z|exact A|exact B|apply nospace_nonsp, dec_of_Z_nospace|].
+  intros E. pose proof (Z_of_dec_dec_of_Z z) as X. rewrite E in X. discriminate.
 Qed.
